@@ -4,7 +4,7 @@ Under contract: QueryBuilder::prepare_select_statement (more to follow).  Sub-re
 """
 import re
 from vlib import rustlex as rl
-from vlib.gen import make_r_fmt, make_r_sub, make_r_dyn, r_fold, r_dynw
+from vlib.gen import make_r_fmt, make_r_sub, make_r_dyn, r_fold, r_dynw, r_unit_tail
 
 QB = "src/backend/query_builder.rs"
 # every statement / clause renderer carries C08 (clause order) AND C01 (no value given to a rendered clause is lost, duplicated or moved: each clause event once, in order);
@@ -478,6 +478,9 @@ pub open spec fn join_events(j: JoinExpr) -> Seq<Ev> {
         + (match j.on { Some(on) => seq![Ev::JoinOnEv(on)], None => Seq::<Ev>::empty() })
 }
 // grammar: { UNION [ALL] | INTERSECT | EXCEPT } ( query )      (MySQL 8.0.31+, PostgreSQL)
+pub open spec fn union_kw_sqlite(t: UnionType) -> Ev {
+    match t { UnionType::Intersect => lit(" INTERSECT "), UnionType::Distinct => lit(" UNION "), UnionType::Except => lit(" EXCEPT "), UnionType::All => lit(" UNION ALL ") }
+}
 pub open spec fn union_kw(t: UnionType) -> Ev {
     match t { UnionType::Intersect => lit(" INTERSECT ("), UnionType::Distinct => lit(" UNION ("), UnionType::Except => lit(" EXCEPT ("), UnionType::All => lit(" UNION ALL (") }
 }
@@ -521,6 +524,12 @@ pub open spec fn select_expr_events(x: SelectExpr) -> Seq<Ev> {
     u.emit("pub struct SqliteQueryBuilderJ;\nimpl SqliteQueryBuilderJ {\n")
     u.fn("src/backend/sqlite/query.rs", "impl QueryBuilder for SqliteQueryBuilder", "prepare_select_lock", props=P, key="SqliteQueryBuilder::prepare_select_lock", vpath="SqliteQueryBuilderJ::prepare_select_lock",
          rules=[r_dynw, make_r_sub("R-slice", r"_sql: &mut W", "sql: &mut W")], spec="ensures\n    // SQLite has no row locks: nothing is written\n    final(sql).tr() == old(sql).tr(),")
+    # SQLite's compound-select grammar takes the operands WITHOUT parentheses (lang_select.html: select-core compound-operator select-core)
+    u.spec(abstract("prepare_select_statement", "x: &SelectStatement", "Ev::Select(*x)"), "render::abstract-sub-renderers(sqlite union)", props=P)
+    u.fn("src/backend/sqlite/query.rs", "impl QueryBuilder for SqliteQueryBuilder", "prepare_union_statement", props=P, key="SqliteQueryBuilder::prepare_union_statement", vpath="SqliteQueryBuilderJ::prepare_union_statement",
+         rules=[r_dynw, r_fmt], spec="ensures\n    // the set operator, then the operand - bare: SQLite's compound select has no parenthesised operands\n    final(sql).tr() == old(sql).tr().push(union_kw_sqlite(union_type)).push(Ev::Select(*select_statement)),")
+    u.fn("src/backend/sqlite/query.rs", "impl QueryBuilder for SqliteQueryBuilder", "insert_default_values", props=P, key="SqliteQueryBuilder::insert_default_values", vpath="SqliteQueryBuilderJ::insert_default_values",
+         rules=[r_dynw, make_r_sub("R-param", r"\(&self, _: u32, sql: &mut W\)", "(&self, n_: u32, sql: &mut W)"), r_fmt, r_unit_tail], spec="ensures\n    // INSERT INTO t DEFAULT VALUES: SQLite's only form (one row)\n    final(sql).tr() == old(sql).tr().push(lit(\"DEFAULT VALUES\")),")
     u.emit("}\n")
     # ---- table references: a plain / qualified / aliased name (unit ident), or a parenthesised sub-query / VALUES list / a function call, each with its alias
     u.spec('''
